@@ -198,29 +198,101 @@ Lemma master_lists_aligned : forall (locs : list loc),
   length (map recursive_expert_level locs) = length (map lpath locs).
 Proof. intros. rewrite !map_length. reflexivity. Qed.
 
-(* ---------- witnesses of defects of the unchanged code (replayed on the Python by the
+(* ---------- target_locators: every path once, the first occurrence kept *)
+Lemma mems_spec : forall x l, mems x l = true <-> In x l.
+Proof.
+  intros x l. unfold mems. rewrite existsb_exists. split.
+  - intros [y [Hy E]]. apply eqs_spec in E. subst. exact Hy.
+  - intro H. exists x. split; [exact H | apply eqs_spec; reflexivity].
+Qed.
+
+Lemma str_eq_dec : forall a b : str, {a = b} + {a <> b}.
+Proof. apply list_eq_dec. apply ascii_dec. Qed.
+
+Lemma dedupe_in : forall l seen p,
+  In p (map lpath (dedupe seen l)) <-> In p (map lpath l) /\ ~ In p seen.
+Proof.
+  induction l as [|x r IH]; intros seen p; cbn [dedupe map].
+  - cbn. tauto.
+  - destruct (mems (lpath x) seen) eqn:E.
+    + apply mems_spec in E. rewrite IH. cbn [In]. split; [tauto|].
+      intros [[<-|H] Hn]; [contradiction | tauto].
+    + assert (~ In (lpath x) seen) as Hx by (intro X; apply mems_spec in X; congruence).
+      cbn [map In]. rewrite IH. cbn [In]. destruct (str_eq_dec (lpath x) p) as [<-|Hne]; tauto.
+Qed.
+
+Lemma dedupe_nodup : forall l seen, NoDup (map lpath (dedupe seen l)).
+Proof.
+  induction l as [|x r IH]; intros seen; cbn [dedupe map]; [constructor|].
+  destruct (mems (lpath x) seen); [apply IH|]. cbn [map]. constructor; [|apply IH].
+  intro H. apply dedupe_in in H. destruct H as [_ H]. apply H. left. reflexivity.
+Qed.
+
+(* the locator kept for a path is its first occurrence (so its expert level is the one used) *)
+Lemma dedupe_first : forall pre x post seen,
+  ~ In (lpath x) seen -> ~ In (lpath x) (map lpath pre) -> In x (dedupe seen (pre ++ x :: post)).
+Proof.
+  induction pre as [|y pre IH]; intros x post seen Hs Hp; cbn [app dedupe].
+  - destruct (mems (lpath x) seen) eqn:E; [apply mems_spec in E; contradiction | left; reflexivity].
+  - cbn [map In] in Hp. destruct (mems (lpath y) seen).
+    + apply IH; tauto.
+    + right. apply IH; [|tauto]. cbn [In]. intros [E|E]; [apply Hp; left; exact E | contradiction].
+Qed.
+
+(* the command-line targets of a master: the dotted paths of its active definitions, each once *)
+Theorem target_locators_spec : forall h ks a tl,
+  target_locators (Scp h ks a) = Ok tl ->
+  NoDup (map lpath tl) /\
+  forall p, In p (map lpath tl) <-> exists k, In k ks /\ odis (ohdr k) = false /\ contributes k p.
+Proof.
+  intros h ks a tl H. unfold target_locators in H.
+  destruct (all_definitions (Scp h ks a)) as [locs| |] eqn:E; cbn [bind] in H; try discriminate.
+  inversion H; subst tl. split; [apply dedupe_nodup|]. intro p.
+  rewrite dedupe_in. rewrite (targets_spec h ks a locs p E). cbn [In]. tauto.
+Qed.
+
+(* a name equal to a full path of ANY master addresses that parameter: no duplicate-freeness needed *)
+Theorem full_path_addresses : forall home master locs s,
+  all_definitions master = Ok locs -> In s (map lpath locs) ->
+  exists i, nth_error (map lpath (dedupe [] locs)) i = Some s /\
+            decide_for home (map lpath (dedupe [] locs)) (map recursive_expert_level (dedupe [] locs)) s
+              = Ok (Chosen i s false) /\
+            process_arg_paths home master [s] = ([], EOk [(i, s)]).
+Proof.
+  intros home master locs s H Hin.
+  destruct (full_path_wins home (map lpath (dedupe [] locs)) (map recursive_expert_level (dedupe [] locs)) s)
+    as [i [Hi Hd]].
+  - apply dedupe_in. cbn [In]. tauto.
+  - apply dedupe_nodup.
+  - exists i. split; [exact Hi|]. split; [exact Hd|].
+    unfold process_arg_paths, target_locators. rewrite H. cbn [bind process_sources]. rewrite Hd. reflexivity.
+Qed.
+
+(* ---------- witnesses of former defects of the code (repaired; replayed on the Python by the
    corpus of harness/streams/c14.py) *)
 Definition mk_def (n : String.string) (a : attrs) : obj := Def (plain_hdr (s_ n)) [uw (s_ "1")] a.
 Definition mk_scp (n : String.string) (ks : list obj) : obj := Scp (plain_hdr (s_ n)) ks [].
 Definition lvl (z : Z) : attrs := [(s_ "expert_level", AInt z)].
 
-(* F13: m = 1 .multiple = True, twice *)
+(* formerly F13: m = 1 .multiple = True, twice: one target, the full path sets it *)
 Definition dup_master : obj :=
   mk_scp "" [mk_def "m" [(s_ "multiple", ABool true)]; mk_def "m" [(s_ "multiple", ABool true)]].
 
-Lemma dup_master_refuses_full_path :
+Lemma dup_master_full_path :
   (exists locs, all_definitions dup_master = Ok locs /\ map lpath locs = [s_ "m"; s_ "m"]) /\
-  process_arg_paths None dup_master [s_ "m"] = ([], EAmbiguous (s_ "m") [s_ "m"; s_ "m"]).
-Proof. split; [eexists; split; reflexivity | vm_compute; reflexivity]. Qed.
+  (exists tl, target_locators dup_master = Ok tl /\ map lpath tl = [s_ "m"]) /\
+  process_arg_paths None dup_master [s_ "m"] = ([], EOk [(0%nat, s_ "m")]).
+Proof. split; [eexists; split; reflexivity|]. split; [eexists; split; reflexivity | vm_compute; reflexivity]. Qed.
 
-(* F18: x { b .expert_level=200 }  y { b .expert_level=200 }  z { ab } and the argument b=... *)
+(* formerly F20: x { b .expert_level=200 }  y { b .expert_level=200 }  z { ab } and the argument b=...:
+   z.ab is not a best match and does not compete; x.b and y.b tie *)
 Definition outsider_master : obj :=
   mk_scp "" [mk_scp "x" [mk_def "b" (lvl 200)]; mk_scp "y" [mk_def "b" (lvl 200)]; mk_scp "z" [mk_def "ab" []]].
 
-Lemma outsider_wins :
+Lemma outsider_refused :
   get_path_score None (s_ "b") (s_ "x.b") = 4 /\ get_path_score None (s_ "b") (s_ "y.b") = 4 /\
   get_path_score None (s_ "b") (s_ "z.ab") = 3 /\
-  process_arg_paths None outsider_master [s_ "b"] = ([s_ "z.ab"], EOk [(2%nat, s_ "z.ab")]).
+  process_arg_paths None outsider_master [s_ "b"] = ([], EAmbiguous (s_ "b") [s_ "x.b"; s_ "y.b"]).
 Proof. vm_compute. auto. Qed.
 
 (* a master without any active definition (formerly a ValueError, repaired in the code by
@@ -230,7 +302,7 @@ Definition empty_master : obj := mk_scp "" [Def (with_dis (plain_hdr (s_ "a")) t
 Lemma empty_master_unknown : forall home master s r,
   all_definitions master = Ok [] ->
   process_arg_paths home master (s :: r) = ([], EUnknown s).
-Proof. intros home master s r H. unfold process_arg_paths. rewrite H. reflexivity. Qed.
+Proof. intros home master s r H. unfold process_arg_paths, target_locators. rewrite H. reflexivity. Qed.
 
 Lemma empty_master_example :
   all_definitions empty_master = Ok [] /\
